@@ -1,7 +1,7 @@
 \* sanity theorems of the reference semantics on family "eqs": if-equation = if-expression of the residuals,
 \* for-equation = its unrolling (plus the intended-switch invariants)
 CONSTANTS Family = "eqs" Tier = "quick"
-  DivMapped = TRUE SlicesRangeChecked = TRUE LoopIndexRangeChecked = TRUE PartialSubscriptIsRow = TRUE CallFirstOutput = TRUE StepRangeParsed = TRUE IfStmtSequential = TRUE ExploreOptions = FALSE
+  DivMapped = TRUE SlicesRangeChecked = TRUE LoopIndexRangeChecked = TRUE PartialSubscriptIsRow = TRUE CallFirstOutput = TRUE StepRangeParsed = TRUE RangeStopExact = TRUE IfStmtSequential = TRUE ExploreOptions = FALSE
 INIT Init
 NEXT Next
 INVARIANT WellTyped
